@@ -589,6 +589,7 @@ def evConn : Ev → ConnId
   | .timeout => 0
   | .expire _ => 0
   | .stall c _ => c
+  | .reload _ => 0
 
 /-- one step changes the view in one of four ways -/
 theorem view_step (tbl : List IfaceRow) (b : Bus) (ev : Ev) :
@@ -625,6 +626,16 @@ theorem view_step (tbl : List IfaceRow) (b : Bus) (ev : Ev) :
       (b.pending.filter (due.contains ·)) ({ bus := { b with pending := b.pending.filter fun p => !due.contains p } } : Tx)
     exact ViewStep.of_core _ (KCore.trans _ _ _ (show KCore b { b with pending := b.pending.filter fun p => !due.contains p } from rfl) h.bus)
   | stall c on => exact Or.inl (.same rfl rfl rfl)
+  | reload p =>
+    left
+    refine .same ?_ rfl rfl
+    show (reloadPolicy b p).conns.map (fun x => (x.id, x.name)) = b.conns.map fun x => (x.id, x.name)
+    unfold reloadPolicy
+    rw [List.map_map]
+    apply List.map_congr_left
+    intro x _
+    simp only [Function.comp]
+    split <;> rfl
 
 theorem namesInv_step (tbl : List IfaceRow) (b : Bus) (ev : Ev) (hi : NamesInv b) : NamesInv (step tbl b ev).1 := by
   rcases view_step tbl b ev with h | ⟨c, _, hc, hn, hm, hcn⟩
